@@ -15,7 +15,7 @@ from .. import bus, cover, gen, ref
 LEVEL = 'exploration'
 JOBS = {'quick': 2, 'thorough': 16}
 REQUIRED_MONITORS = ('chi2_reference', 'chi2_rigid_motion', 'chi2_relabel')
-REQUIRED_CLASSES = ('restr:none', 'restr:partial', 'restr:all-fixed', 'restr:dup-fixed', 'restr:dup-mobile',
+REQUIRED_CLASSES = ('mobile-array:same-object-overwritten', 'mobile-array:strided-or-fortran', 'restr:none', 'restr:partial', 'restr:all-fixed', 'restr:dup-fixed', 'restr:dup-mobile',
                     'penalty:k>0', 'penalty:k=0', 'embedded:mc')
 RULE = ('calculators over (fixed size 1..40, mobile size 1..25, restraint class, placement class); each is '
         'evaluated on 4 configurations different from the construction one. Non-trivial: at least two mobile '
@@ -197,9 +197,23 @@ def run_calc(ctx, case):
         for c in ([classes] if isinstance(classes, str) else classes):
             ctx.hit('restr:' + c)
         fixed_before = fixed.copy()
+        buf = np.empty((nm, 3))
+        reuse = it % 2 == 1         # every evaluation passes the same array object, overwritten in place (as the search loop may)
         for ev in range(4):
             mobile = place(rng, pcls, nf, nm)[1] if ev else mobile0 + rng.normal(size=(nm, 3)) * 0.3
-            val = calc(mobile)
+            if reuse:
+                buf[:] = mobile
+                val = calc(buf)
+                ctx.hit('mobile-array:same-object-overwritten')
+                if not np.array_equal(buf, mobile):
+                    ctx.violation('chi2-modified-mobile-array', 'the calculator changed the coordinate array it evaluated')
+            elif it % 4 == 2:
+                big = np.zeros((nm, 6))
+                big[:, ::2] = mobile
+                val = calc(big[:, ::2] if ev % 2 else np.asfortranarray(mobile))
+                ctx.hit('mobile-array:strided-or-fortran')
+            else:
+                val = calc(mobile)
             ctx.count('evaluations')
             want, margin = ref.ref_chi2(fixed, mobile, restr)
             if margin < 1e-9:
